@@ -6,6 +6,7 @@
 From Coq Require Import ZArith List.
 From Verif Require Import Lib.Params Lib.Words Lib.NumberTheory Model.FfgLimbs
   Proofs.FfgArith Proofs.FfgMont Proofs.FfgOps Proofs.FfgRoutinesEq.
+From Verif Require Proofs.GapField.
 From Verif Require Gen.FfgRoutines.
 Local Open Scope Z_scope.
 
@@ -96,6 +97,15 @@ Qed.
 Theorem C09_inv_mod_zero : inv_mod 0 pg = 0.
 Proof. vm_compute. reflexivity. Qed.
 
+(* division by zero gives zero; big.Int.ModInverse (extended Euclid: inverse if gcd = 1, else
+   receiver unchanged) is what the model's Fermat inversion computes *)
+Theorem C09_div_by_zero : forall x y, canon x -> canon y -> mval y = 0 ->
+  canon (div x y) /\ mval (div x y) = 0.
+Proof. exact GapField.ffg_div_by_zero. Qed.
+
+Theorem C09_modinv_is_ModInverse : forall v, 0 <= v < pg -> GapField.big_ModInverse v v pg = modinv v.
+Proof. exact GapField.ffg_modinv_models_ModInverse. Qed.
+
 Print Assumptions C09_model_is_the_source.
 Print Assumptions C09_mul.
 Print Assumptions C09_add.
@@ -104,3 +114,5 @@ Print Assumptions C09_batchInvert.
 Print Assumptions C09_exp.
 Print Assumptions C09_setUint64.
 Print Assumptions C09_halve.
+Print Assumptions C09_div_by_zero.
+Print Assumptions C09_modinv_is_ModInverse.
